@@ -1,7 +1,7 @@
 (* C10 - rendering is a pure, deterministic function of the value.  Statements only. *)
 From Coq Require Import String List Bool Permutation.
 From QRB Require Import Base.Bytes Model.W Model.Values Model.Compile Model.WArgs.
-From QRB Require Import Meta.GoAst Meta.EffectIR Meta.Lower Gen.Ast Obl.Effects.
+From QRB Require Import Meta.GoAst Meta.EffectIR Meta.Lower Meta.MapOrder Gen.Ast Obl.Effects.
 Import ListNotations.
 
 Section C10.
@@ -29,5 +29,12 @@ Theorem C10_no_hidden_state :
   no_global_writes all_funcs = true /\ sb_local_ok all_funcs = true /\ all_value_fns_safe all_funcs = true.
 Proof. exact (conj globals_never_written (conj sql_builder_local value_fns_safe)). Qed.
 
+(* on the current tree every iteration over a Go map (whose order the runtime randomises) is either the
+   collect-then-sort.Strings idiom of SetMap - the result is a function of the key set - or the bind fill loop
+   that C10_map_order is about *)
+Theorem C10_map_iteration : map_order_ok all_funcs = true.
+Proof. exact map_iteration_ordered. Qed.
+
 Print Assumptions C10_map_order.
+Print Assumptions C10_map_iteration.
 Print Assumptions C10_no_hidden_state.
